@@ -51,6 +51,80 @@ T_EXC = {"ValueError", "MissingField", "InvalidFieldValue", "ExtraKeysError", "M
 UNPACK_SCEN = ("unpack", "build", "codec.add_decode")
 
 
+def _exception_classes(repo: Repo, rep: Report, c=None) -> None:
+    """R05.11: the library's exception classes store their constructor arguments verbatim (the reported culprit -- field
+    name, type, offending value, extra keys -- is the very object the generated code passed, not a converted copy).
+    R05.12: no library exception derives from an exception class that generated code catches for control flow
+    (`except KeyError` / `except (KeyError, AttributeError)` of the discriminator dispatcher, `except IndexError` of the
+    NamedTuple unpacker): such an exception, raised by a nested unpacker, would be swallowed and re-reported as
+    something else."""
+    import builtins as _b
+
+    M_EXC_ = "mashumaro.exceptions"
+    mi = repo.module(M_EXC_)
+    control = set()
+    if c is not None:
+        for it in c.items:
+            for l in it.lines:
+                t = l.tmpl.show().strip()
+                m = re.match(r"except\s*\(?([\w, ]+)\)?\s*:", t)
+                if m:
+                    for nm in m.group(1).split(","):
+                        nm = nm.strip()
+                        if nm and nm not in ("Exception", "BaseException"):
+                            control.add(nm)
+    if not control:
+        control = {"KeyError", "AttributeError", "IndexError"}
+    classes = {n.name: n for n in mi.tree.body if isinstance(n, ast.ClassDef)}
+
+    def bases_closure(name, seen=()):
+        out = []
+        node = classes.get(name)
+        if node is None:
+            return out
+        for b in node.bases:
+            bn = ast.unparse(b)
+            if bn in classes and bn not in seen:
+                out += bases_closure(bn, seen + (name,))
+            else:
+                out.append(bn)
+        return out
+
+    n11 = n12 = 0
+    for name, node in classes.items():
+        roots = bases_closure(name)
+        bad = []
+        for r in roots:
+            cls = getattr(_b, r, None)
+            if isinstance(cls, type):
+                bad += [cf for cf in control if isinstance(getattr(_b, cf, None), type) and issubclass(cls, getattr(_b, cf))]
+        n12 += 1
+        if bad:
+            rep.violation("R05.12", f"{M_EXC_}::{name}", f"{name} is a {sorted(set(bad))[0]}",
+                          f"generated code catches {sorted(control)} for control flow (registry miss, short tuple): a {name} raised by a nested unpacker is swallowed by the enclosing dispatcher "
+                          "and re-reported as another error", loc=f"mashumaro/exceptions.py:{node.lineno}")
+        else:
+            rep.ok("R05.12", f"{name}({', '.join(roots)}) is not caught by the control-flow handlers {sorted(control)}", None)
+        init = next((x for x in node.body if isinstance(x, ast.FunctionDef) and x.name == "__init__"), None)
+        if init is None:
+            continue
+        params = {a.arg for a in init.args.args + init.args.kwonlyargs}
+        for st in ast.walk(init):
+            if isinstance(st, ast.Assign) and isinstance(st.targets[0], ast.Attribute) and isinstance(st.targets[0].value, ast.Name) and st.targets[0].value.id == "self":
+                n11 += 1
+                v = st.value
+                if isinstance(v, ast.Name) and v.id in params:
+                    rep.ok("R05.11", f"{name}.{st.targets[0].attr} = {v.id}", None)
+                elif isinstance(v, ast.Constant):
+                    rep.ok("R05.11", f"{name}.{st.targets[0].attr} = {ast.unparse(v)}", None, nontrivial=False)
+                else:
+                    rep.violation("R05.11", f"{M_EXC_}::{name}", f"{name}.{st.targets[0].attr} = {ast.unparse(v)[:60]}",
+                                  "the exception no longer reports the object it was given (a key that is not a string, the offending value, the type) but a converted copy: "
+                                  "distinct culprits collapse and callers cannot match them against their input", loc=f"mashumaro/exceptions.py:{st.lineno}")
+    if n11 < 15 or n12 < 8:
+        rep.error(f"exception rules shrank: {n11} attribute stores, {n12} classes")
+
+
 def run(repo: Repo, rep: Report, tier: str) -> None:
     BUILD = f"{M_BUILDER}::FieldUnpackerCodeBlockBuilder.build"
     res = fieldblock.analyse(repo)
@@ -304,6 +378,7 @@ def run(repo: Repo, rep: Report, tier: str) -> None:
     from ..core import helper_contracts as _hc2
     _hc2.report(repo, rep, "R09.6", _hc2.dataclass_fields_contract(repo), "mashumaro.core.meta.code.builder::CodeBuilder.dataclass_fields")
     _hc2.report(repo, rep, "R17.8", _hc2.add_type_modules_contract(repo), "mashumaro.core.meta.code.builder::CodeBuilder.add_type_modules")
+    _exception_classes(repo, rep, corpus_mod.explore_all(repo, tier))
 
 def _fieldless(repo: Repo, rep: Report) -> None:
     fi = repo.func(M_BUILDER, "CodeBuilder._add_unpack_method_lines")
@@ -339,3 +414,6 @@ LEVEL_TEXT += _ADD3
 _ADD4 = ' Borrowed: R17.8 (error paths render type references, whose modules must be registered).'
 EXPLANATION += _ADD4
 LEVEL_TEXT += _ADD4
+_ADD6 = ' R05.11: exception classes store their arguments verbatim. R05.12: no library exception derives from a class that generated code catches for control flow.'
+EXPLANATION += _ADD6
+LEVEL_TEXT += _ADD6
